@@ -1,5 +1,8 @@
 import RedactVerif.Props.C01
 import RedactVerif.Props.L2
+import RedactVerif.Props.C09
+import RedactVerif.Props.FactsSkelPrinter
+import RedactVerif.Props.FactsSkelWriters
 /-
 C16 — all entry points agree on what a given argument list prints as.
 
@@ -20,8 +23,12 @@ oracle, every argument list and every format:
   (a pre-redacted operand ending in invalid UTF-8) — the one case in which
   `RedactableString()` is not idempotent.
 
-The agreement "up to merging of adjacent envelopes" for a builder or an outer
-printer that already holds text, and the SafeFormat route (which runs the same
+* a StringBuilder that already holds text (`builder_route_lab`): after `Print`/`Printf` it reads,
+  byte for byte and side for side, as what it held followed by what `Sprint`/`Sprintf` returns —
+  agreement up to merging of adjacent envelopes, as equality of the labelled reading (C09).
+
+The same agreement for an outer printer that already holds text (nested-printer route),
+and the SafeFormat route (which runs the same
 `doPrint` with less fuel), rest on the correspondence (B streams with `pr`
 operations, P-model scripts with nested prints) and the real-code route oracle.
 -/
@@ -97,5 +104,22 @@ theorem second_finalisation_can_add (x : Byte) (hx : x = 0xBF) :
 /-! Non-vacuity -/
 example : (builderRun Buffer.init [.print (startB ++ [0x78] ++ endB)]).redactableBytes = startB ++ [0x78] ++ endB :=
   builder_print_route _
+
+/-- **The StringBuilder route on a builder that already holds text**: whatever calls `ws` built the
+content, `Print`/`Printf` (the inner printer's finished output `r`, written raw) makes the builder
+read as its previous content followed by `r` — the same bytes on the same sides; only the envelope
+boundary between the two may be merged. -/
+theorem builder_route_lab (ws : List WOp) (r : List Byte) (hw : ∀ w ∈ ws, CleanW w)
+    (hr : Obtainable r ∧ RuneEnd (tokenize r)) :
+    labT (tokenize (builderRun Buffer.init (ws ++ [.print r])).redactableBytes) =
+      labT (tokenize (builderRun Buffer.init ws).redactableBytes) ++ labT (tokenize r) := by
+  have h2 : ∀ w ∈ ws ++ [.print r], CleanW w := by
+    intro w hw'
+    simp only [List.mem_append, List.mem_singleton] at hw'
+    rcases hw' with h | rfl
+    · exact hw w h
+    · exact hr
+  rw [builder_lab_partial _ h2, builder_lab_partial _ hw]
+  simp [List.flatMap_append, labW, pendLab]
 
 end Redact
